@@ -14,7 +14,7 @@ pub const HTML_FRAGS: &[&str] = &[
     "<!DOCTYPE", "<!DOCTYPE html>", "<!doctype html PUBLIC \"a\" \"b\">", "<!DOCTYPE x SYSTEM 'y'>", "<!DOCTYPE html PUBLIC", "<!DOCTYPE a PUBLI", "<!DOCTY", " PUBLIC \"a\" \"b\"", " SYSTEM 'x'", "<!DOCTYPE>", "<!DOCTYPE  html  SYSTEM \"q",
     // ordinary tags
     "<div>", "</div>", "<p>", "</p>", "<span>", "</span>", "<b>", "</b>", "<i>", "<a href=x>", "</a>", "<DIV>", "</DIV>", "<Div id=1>",
-    "<br>", "<br/>", "<img src=a>", "<input>", "<hr>", "<wbr>", "\u{feff}", "\u{feff}\u{e9}", "a\u{feff}b", "<meta charset=utf-8>", "<link rel=x>",
+    "<br>", "<br/>", "<img src=a>", "<input>", "<hr>", "<wbr>", "\u{feff}", "\u{feff}\u{e9}", "a\u{feff}b", "<script><!--<script>", "</script/", "</script/>", "<script><!--<script></script/>x</script>", "</script/b>", "<meta charset=utf-8>", "<link rel=x>",
     // charset declarations in both syntaxes, incl. labels of encodings lol-html must refuse
     "<meta charset=windows-1252>", "<meta charset=utf-16le>", "<meta charset=\"Shift_JIS\">", "<meta http-equiv=Content-Type content=\"text/html; charset=utf-16\">", "<meta http-equiv=\"content-type\" content='text/html;charset=iso-2022-jp'>",
     "<meta http-equiv=content-type content=\"text/html; charset=windows-1251\">", "<meta content=\"text/html; charset=utf-16be\" http-equiv=Content-Type>", "<meta http-equiv=refresh content=\"charset=utf-16\">", "<meta charset=replacement>", "<meta http-equiv=Content-Type content=\"charset=x-user-defined\">",
